@@ -1,4 +1,5 @@
 import EdpVerif.Drv.Etf
+import EdpVerif.Impl.DecodeMeter
 namespace Edp.Drv
 open Edp
 
@@ -7,12 +8,53 @@ def classOf : Except DErr Term → String
   | .error .panic => "panic"
   | .error _ => "err"
 
+/-- the entry points in the order the harness's child process reports them -/
+def c02Order : List EntryPoint :=
+  [.decode, .decodeBorrowed, .withAtomCache, .withTrailing, .rawTerm, .withCache, .fragHeader, .fragCont]
+
+/-- largest heap request of the resource model in bytes, and the largest inflated length -/
+def meterPeak (k : Target) (m : Meter) : Nat × Nat :=
+  (m.reqs.foldl (fun a q => max a (q.bytes k)) 0, m.infl.foldl (fun a i => max a i.2) 0)
+
+/-- **Spec of "in proportion"** (the oracle for the observed allocator): the largest single request a decoding call makes
+is at most what the largest wire-sized request of the model needs, or three times the inflated length of a compressed
+section (the output vector grows by doubling), plus the fixed working set (atom table, zlib state and buffers, B-tree
+nodes, error text) -/
+def c02Slack (hasZlib : Bool) : Nat := 24576 + (if hasZlib then 98304 else 0)
+
+def c02PeakOk (k : Target) (m : Meter) (observed : Nat) : Bool :=
+  let (r, z) := meterPeak k m
+  observed ≤ max r (3 * z) + c02Slack (!m.infl.isEmpty)
+
 /-- C02 tie: outcome class of the owned and of the zero-copy decoder on an arbitrary byte string -/
 def handleC02 : List String → Option String
   | ["c02class", h, o] => some <| run do
     let b ← getHex h
     let x := (parseOracle o).ext
     pure (classOf (decode x b) ++ " " ++ classOf (decodeBorrowed x b))
+  -- tie: result class of every entry point (resource model's panic sites folded in), and the deepest `parse_term`
+  | ["c02ep", h, o] => some <| run do
+    let b ← getHex h
+    let x := (parseOracle o).ext
+    pure (" ".intercalate (c02Order.map fun ep => (ep.outcome Target.x64 x {} b).text))
+  -- oracle: the allocator's largest single request per entry point against the model's requests
+  | ["c02peak", h, o, ts, peaks] => some <| run do
+    let b ← getHex h
+    let x := (parseOracle o).ext
+    let k : Target := { termSize := ts.toNat! }
+    let obs := (peaks.splitOn ",").map String.toNat!
+    let bad := (c02Order.zip obs).filterMap fun (ep, p) =>
+      let m := ep.meter x {} b
+      if m.maxDepth > MAX_NESTING_DEPTH + 1 then some ("depth " ++ toString m.maxDepth)
+      else if c02PeakOk k m p then none
+      else some (reprStr ep ++ " observed " ++ toString p ++ " model " ++ toString (meterPeak k m).1 ++ "/" ++ toString (meterPeak k m).2)
+    pure (if bad.isEmpty then "ok" else "FAIL " ++ "; ".intercalate bad)
+  -- the model's deepest entry and largest request, for the statistics of the run
+  | ["c02meter", h, o] => some <| run do
+    let b ← getHex h
+    let x := (parseOracle o).ext
+    let m := EntryPoint.decode.meter x {} b
+    pure (toString m.maxDepth ++ " " ++ toString (meterPeak Target.x64 m).1)
   | _ => none
 
 end Edp.Drv
